@@ -15,6 +15,8 @@ partial def readItem : Sexp → Option Item
   | .list (.atom "s" :: cs) => ((cs.filter (!invisible ·)).mapM readItem).map .scope
   | .list (.atom "b" :: cs) => ((cs.filter (!invisible ·)).mapM readItem).map .boundary
   | .list [.atom "t", .atom n] => n.toNat?.map .task
+  -- `(x n)`: a task whose body disposes its own scope when it first resumes (see `xsOf`, `completeX`)
+  | .list [.atom "x", .atom n] => n.toNat?.map .task
   -- `(u n)`: the loading resource `n` is read under the ambient boundary: one guard, released when the
   -- resource delivers = a task with one await point (completed by the event `rN`, see `usesOf`)
   | .list [.atom "u", .atom n] => n.toNat?.map .use
@@ -26,9 +28,25 @@ partial def usesOf : Sexp → List (Option Nat)
   | .list (.atom "s" :: cs) => cs.flatMap usesOf
   | .list (.atom "b" :: cs) => cs.flatMap usesOf
   | .list [.atom "t", .atom _] => [none]
+  | .list [.atom "x", .atom _] => [none]
   | .list [.atom "u", .atom n] => [n.toNat?]
   | .list [.atom "R", .atom n] => [n.toNat?]      -- the fetch itself completes with the same event
   | _ => []
+
+/-- per task-like item, in creation order: is it an `(x n)` task -/
+partial def xFlags : Sexp → List Bool
+  | .list (.atom "s" :: cs) => cs.flatMap xFlags
+  | .list (.atom "b" :: cs) => cs.flatMap xFlags
+  | .list [.atom "t", .atom _] => [false]
+  | .list [.atom "x", .atom _] => [true]
+  | .list [.atom "u", .atom _] => [false]
+  | .list [.atom "R", .atom _] => [false]
+  | _ => []
+
+/-- the task numbers of the `(x n)` items -/
+def xsOf (items : List Sexp) : List Nat :=
+  let fl := items.flatMap xFlags
+  (List.range fl.length).filter fun t => fl[t]? == some true
 
 def showM (m : M) (from_ : Nat) (uses : List (Option Nat) := []) : String :=
   let nb := m.boundaries.length
@@ -52,7 +70,7 @@ def readEv (s : String) : Option Ev :=
 /-- the events of a group `a+b+…` happen back to back, one executor turn afterwards: the disposals take
 effect at once, the completed await points resume their tasks in that turn (if they were not aborted),
 then the aborted tasks are dropped -/
-def runGroup (uses : List (Option Nat)) (m : M) (g : String) : Option M :=
+def runGroup (uses : List (Option Nat)) (m : M) (g : String) (xs : List Nat := []) (fresh : Bool := false) : Option M :=
   let parts := g.splitOn "+"
   let disposes := parts.filterMap fun e => if e.startsWith "d" then (e.drop 1).toString.toNat? else none
   let completes : List Nat := parts.flatMap fun e =>
@@ -63,18 +81,22 @@ def runGroup (uses : List (Option Nat)) (m : M) (g : String) : Option M :=
       | none => []
     else []
   if parts.any fun e => !(e.startsWith "d" || e.startsWith "c" || e.startsWith "r") then none else
+  -- tasks that wait at an await point are resumed in the order in which their await points were completed; tasks that
+  -- have never been polled (`fresh`: no executor turn since the creation) are polled in the order of their creation
+  let completes := if fresh then (completes.toArray.qsort (· < ·)).toList else completes
   let m := disposes.foldl dispose m
-  let m := completes.foldl complete m
+  let m := completes.foldl (fun m t => if xs.contains t then completeX m t else complete m t) m
   some (drain m)
 
-def runSuspense (uses : List (Option Nat)) (m : M) (evs : List String) (acc : List String) : List String :=
+def runSuspense (uses : List (Option Nat)) (m : M) (evs : List String) (acc : List String) (xs : List Nat := [])
+    (fresh : Bool := false) : List String :=
   match evs with
   | [] => acc
   | e :: es =>
     if (e.splitOn "+").length > 1 then
-      match runGroup uses m e with
+      match runGroup uses m e xs fresh with
       | none => acc ++ ["bad-op"]
-      | some m' => runSuspense uses m' es (acc ++ [showM m' m.polls.length uses])
+      | some m' => runSuspense uses m' es (acc ++ [showM m' m.polls.length uses]) xs
     else
     if e.startsWith "r" then
       -- resource `n` delivers: every guard taken for it is released (the tasks standing for its reads
@@ -84,13 +106,13 @@ def runSuspense (uses : List (Option Nat)) (m : M) (evs : List String) (acc : Li
       | some n =>
         let ts := (List.range uses.length).filter fun t => uses[t]? == some (some n)
         let m' := ts.foldl (fun m t => step m (.complete t)) m
-        runSuspense uses m' es (acc ++ [showM m' m.polls.length uses])
+        runSuspense uses m' es (acc ++ [showM m' m.polls.length uses]) xs
     else
     match readEv e with
     | none => acc ++ ["bad-op"]
     | some ev =>
-      let m' := step m ev
-      runSuspense uses m' es (acc ++ [showM m' m.polls.length uses])
+      let m' := stepX xs m ev
+      runSuspense uses m' es (acc ++ [showM m' m.polls.length uses]) xs
 
 /-- `until_finished()` of every boundary (a waiter spawned in the boundary's scope): it has come back once the
 boundary was seen not loading at an observation point after an executor turn, and stays so; derived from the `L=`
@@ -262,7 +284,7 @@ def handle (line : String) : String :=
         let evl := if evs == "-" then [] else evs.splitOn ","
         let noDrain := evl.head? == some "n"
         let evl := if noDrain then evl.drop 1 else evl
-        " | ".intercalate (addUntil noDrain (runSuspense (items0.flatMap usesOf) m evl [showM m 0 (items0.flatMap usesOf)]))
+        " | ".intercalate (addUntil noDrain (runSuspense (items0.flatMap usesOf) m evl [showM m 0 (items0.flatMap usesOf)] (xsOf items0) noDrain))
       | none => "bad-op"
     | _, _ => "bad-op"
   | _ => "bad-op"
